@@ -346,9 +346,15 @@ unsafe fn h_fork_post(r: c_int) {
     } else {
         let en = errno_of(r as i64);
         rec(K_FORK, 0, 0, 0, r as i64, en, b"");
+        // a scenario may hold the parent up right after fork() (it is preempted; the child runs on and execs)
+        let us = PARENT_DELAY_AFTER_FORK_US.load(Ordering::SeqCst);
+        if us > 0 && r > 0 {
+            libc::usleep(us as u32);
+        }
         crate::raw::set_errno(en);
     }
 }
+pub static PARENT_DELAY_AFTER_FORK_US: std::sync::atomic::AtomicU64 = std::sync::atomic::AtomicU64::new(0);
 unsafe fn h_chdir(p: *const c_char) -> Option<c_int> {
     if !RECORDING {
         return None;
